@@ -847,6 +847,22 @@ FINISH:
 		}
 	}
 
+	// A CID in both lists is one merged entry in the message, so a Remove
+	// above also dropped the half that was marked as sent: add those again
+	// (a no-op for entries that are still in the message).
+	for _, e := range peerEntries[:sentPeerEntries] {
+		if e.Cid.Defined() {
+			mq.msg.AddEntry(e.Cid, e.Priority, e.WantType, true)
+		}
+	}
+	for _, e := range bcstEntries[:sentBcstEntries] {
+		if e.Cid.Defined() && supportsHave {
+			mq.msg.AddEntry(e.Cid, e.Priority, pb.Message_Wantlist_Have, false)
+		} else if e.Cid.Defined() {
+			mq.msg.AddEntry(e.Cid, e.Priority, pb.Message_Wantlist_Block, false)
+		}
+	}
+
 	for _, c := range cancels[:sentCancels] {
 		if !mq.cancels.Has(c) {
 			mq.msg.Remove(c)
